@@ -8,7 +8,7 @@ ID = "C05"
 OWN = ("obj",)
 
 TERMS = ["mayer_tf", "mayer_t0", "sum", "sum_last", "int_control", "integral", "integral_t", "integral_one",
-         "integral_pc", "integral_pcq", "integral_vc", "T", "tf", "vg", "pg", "int_T", "int_z", "qstate_t"]
+         "integral_pc", "integral_pcq", "integral_vc", "T", "tf", "vg", "pg", "int_T", "int_z", "qstate_t", "mayer_T", "sum_T"]
 DIMS = dict(
     term1=["integral"] + [t for t in TERMS if t != "integral"],
     term2=["mayer_tf", "none", "same", "sum", "integral_t", "int_control", "qstate_t"],
@@ -19,7 +19,7 @@ DIMS = dict(
     M=[1, 2, 3],
     degree=[2, 1, 3, 4],
     scheme=["radau", "legendre"],
-    grid=["uniform", "geom", "function", "free", "uniform_lt0"],
+    grid=["uniform", "geom", "function", "free", "uniform_lt0", "uniform_lT", "geom_lt0_lT"],
     horizon=["fixed", "Tfree", "t0free", "Tparam"],
     state=["vec2", "scalar"],
     pc=[None, "control", "control+", "both"],
